@@ -2248,6 +2248,22 @@ class subarray : public const_subarray<T, D, ElementPtr, Layout> {
 	BOOST_MULTI_HD constexpr auto partitioned(size_type size)      & -> subarray<T, D+1, typename subarray::element_ptr> { return this->partitioned_aux_(size); }
 	BOOST_MULTI_HD constexpr auto partitioned(size_type size)     && -> subarray<T, D+1, typename subarray::element_ptr> { return this->partitioned_aux_(size); }
 
+	BOOST_MULTI_HD constexpr auto chunked(size_type size) const& -> decltype(auto) { return const_subarray<T, D, ElementPtr, Layout>::chunked(size); }
+	BOOST_MULTI_HD constexpr auto chunked(size_type size)      & -> subarray<T, D+1, typename subarray::element_ptr> { return this->chunked_aux_(size); }
+	BOOST_MULTI_HD constexpr auto chunked(size_type size)     && -> subarray<T, D+1, typename subarray::element_ptr> { return this->chunked_aux_(size); }
+
+	constexpr auto reversed() const& -> decltype(auto) { return const_subarray<T, D, ElementPtr, Layout>::reversed(); }
+	constexpr auto reversed()  & -> subarray { return this->reversed_aux_(); }
+	constexpr auto reversed() && -> subarray { return this->reversed_aux_(); }
+
+	constexpr auto front() const& -> decltype(auto) { return const_subarray<T, D, ElementPtr, Layout>::front(); }
+	constexpr auto front()  & -> typename subarray::reference { return *this->begin(); }
+	constexpr auto front() && -> typename subarray::reference { return *this->begin(); }
+
+	constexpr auto back() const& -> decltype(auto) { return const_subarray<T, D, ElementPtr, Layout>::back(); }
+	constexpr auto back()  & -> typename subarray::reference { return *(this->end() - 1); }
+	constexpr auto back() && -> typename subarray::reference { return *(this->end() - 1); }
+
 	using const_subarray<T, D, ElementPtr, Layout>::flatted;
 	constexpr auto flatted() & {
 		// assert(is_flattable() && "flatted doesn't work for all layouts!");  // NOLINT(cppcoreguidelines-pro-bounds-array-to-pointer-decay,hicpp-no-array-decay) : normal in a constexpr function
